@@ -1171,3 +1171,117 @@ Proof.
     { apply existsb_false. intros t Ht. apply Hfree. cbn [foreign_tokens]. apply in_or_app. right. exact Ht. }
     rewrite Hg'. reflexivity.
 Qed.
+
+(* ------------------------------------------------------------------ *)
+(* 11. blocks to IR: one entry through _parse, interpolate_defaults,    *)
+(*     _set_name_and_type                                               *)
+(* ------------------------------------------------------------------ *)
+From DT Require Import DefaultsFacts.
+
+Lemma coerce_not_None : forall t v w, coerce t v = Ok w -> w <> VNone.
+Proof.
+  intros t v w H. unfold coerce in H.
+  destruct (str_eqb t (L "bool")); [injection H as H; subst; discriminate|].
+  destruct (str_eqb t (L "str")); [injection H as H; subst; discriminate|].
+  destruct (str_eqb t (L "int")).
+  { destruct v as [|b|z|r|s]; try discriminate.
+    - injection H as H; subst; discriminate.
+    - injection H as H; subst; discriminate.
+    - apply bind_Ok_inv' in H. destruct H as [z [_ H]]. injection H as H; subst; discriminate.
+    - destruct (Z_of_dec_signed (strip s)); [injection H as H; subst; discriminate|discriminate]. }
+  destruct (str_eqb t (L "float")); [|discriminate].
+  destruct v as [|b|z|r|s]; try discriminate.
+  - injection H as H; subst; discriminate.
+  - apply bind_Ok_inv' in H. destruct H as [z' [_ H]]. injection H as H; subst; discriminate.
+  - injection H as H; subst; discriminate.
+  - apply bind_Ok_inv' in H. destruct H as [z' [_ H]]. injection H as H; subst; discriminate.
+Qed.
+
+Lemma coerce_default_not_None : forall typ s w, coerce_default typ s = Ok w -> w <> VNone.
+Proof.
+  intros typ s w H. unfold coerce_default in H. cbv zeta in H.
+  destruct (match typ with Some t => in_simple_types t && negb (in_none_types (VStr s)) | None => false end).
+  - destruct typ as [t|]; [|discriminate].
+    apply bind_Ok_inv' in H. destruct H as [lit [_ H]]. apply (coerce_not_None _ _ _ H).
+  - destruct (isdecimal s); [injection H as H; subst; discriminate|].
+    destruct (signed_decimal s).
+    { destruct (Z_of_dec_signed s); [injection H as H; subst; discriminate|discriminate]. }
+    destruct (str_eqb s (L "True")); [injection H as H; subst; discriminate|].
+    destruct (str_eqb s (L "False")); [injection H as H; subst; discriminate|].
+    destruct (float_of_str s) as [r|e].
+    + injection H as H; subst; discriminate.
+    + destruct e; try discriminate. injection H as H; subst; discriminate.
+Qed.
+
+Lemma extract_default_not_None : forall line rs ann typ emit l w,
+    extract_default line rs ann typ emit = Ok (l, Some w) -> w <> VNone.
+Proof.
+  intros line rs ann typ emit l w H. unfold extract_default in H.
+  destruct (location_within casefold line ann) as [[[s e] f]|]; [|discriminate].
+  cbv zeta in H. apply bind_Ok_inv' in H. destruct H as [v [Hv H]].
+  apply coerce_default_not_None in Hv.
+  destruct emit; injection H as _ H; subst; exact Hv.
+Qed.
+
+Lemma unquote_val_not_None : forall v, v <> VNone -> unquote_val v <> VNone.
+Proof. intros [|b|z|r|s] H; try discriminate; contradiction. Qed.
+
+(* the writing branch of set_default_doc does not look at the name *)
+Lemma set_default_doc_name_indep : forall name p v,
+    p_default p = Some v ->
+    negb (null_default v) || negb (endswith (L "kwargs") name) = true ->
+    set_default_doc name p true = set_default_doc (L "x") p true.
+Proof.
+  intros name p v Hv Hw. unfold set_default_doc. destruct (p_doc p) as [| |doc]; try reflexivity.
+  cbv zeta. rewrite Hv. rewrite !andb_false_r.
+  destruct (negb (contains (L "Defaults") doc || contains (L "defaults") doc) && true); [|reflexivity].
+  assert (Hn : negb (pyval_eqb (if pyval_eqb v (VStr NoneStr) then VNone else v) VNone) = negb (null_default v)).
+  { unfold null_default. destruct (pyval_eqb v (VStr NoneStr)) eqn:E.
+    - rewrite orb_true_r. reflexivity.
+    - rewrite orb_false_r. reflexivity. }
+  rewrite Hn. rewrite Hw. rewrite endswith_kwargs_x. cbn [negb]. rewrite orb_true_r. reflexivity.
+Qed.
+
+(* the C17 theorem, read for the line the emitter writes for a parameter called [name] *)
+Lemma extract_written_default : forall name p d t v d',
+    p_doc p = Has d -> p_typ p = Has t -> p_default p = Some v ->
+    negb (null_default v) || negb (endswith (L "kwargs") name) = true ->
+    guard_C17 ADefaultsTo d v (Some t) = true ->
+    doc_with_default name p = Ok d' ->
+    exists v', extract_default d' true default_announces (Some t) false = Ok (d, Some v')
+               /\ same_default v v' = true.
+Proof.
+  intros name p d t v d' Hd Ht Hv Hw Hg Hdd.
+  destruct (C17_partial_lemma _ _ _ _ Hg) as [line [Hr [_ [v' [He Hs]]]]].
+  exists v'. split; [|exact Hs].
+  assert (El : line = d').
+  { unfold render in Hr. apply bind_Ok_inv' in Hr. destruct Hr as [p' [Hp' Hr]].
+    unfold doc_with_default in Hdd. rewrite (set_default_doc_name_indep name p v Hv Hw) in Hdd.
+    assert (Ep : mkParam (Has d) (fld_of_opt (Some t)) (Some v) = p).
+    { cbn [fld_of_opt]. rewrite <- Hd, <- Ht, <- Hv. apply param_eta. }
+    rewrite Ep in Hp'. rewrite Hp' in Hdd. cbn [bind] in Hdd.
+    destruct (p_doc p') as [| |ln]; try discriminate.
+    destruct (startswith (d ++ L " Defaults to ") ln); [|discriminate].
+    injection Hr as Hr. injection Hdd as Hdd. congruence. }
+  rewrite <- El. exact He.
+Qed.
+
+Lemma interpolate_written : forall name p d t v d' req,
+    p_doc p = Has d -> p_typ p = Has t -> p_default p = Some v ->
+    negb (null_default v) || negb (endswith (L "kwargs") name) = true ->
+    guard_C17 ADefaultsTo d v (Some t) = true ->
+    doc_with_default name p = Ok d' ->
+    exists v', interpolate_force (mkParam (Has d') (Has t) None) req false
+               = Ok (mkParam (Has d) (Has t) (Some (unquote_val v')), true)
+               /\ same_default v v' = true /\ v' <> VNone.
+Proof.
+  intros name p d t v d' req Hd Ht Hv Hw Hg Hdd.
+  destruct (extract_written_default name p d t v d' Hd Ht Hv Hw Hg Hdd) as [v' [He Hs]].
+  pose proof (extract_default_not_None _ _ _ _ _ _ _ He) as Hnn.
+  exists v'. split; [|split; [exact Hs|exact Hnn]].
+  unfold interpolate_force, interpolate_defaults. cbn [p_doc p_typ p_default fget extract_default_fld].
+  rewrite He. cbn [bind fst snd].
+  destruct v' as [|b|z|r|s]; [contradiction| | | |];
+    cbn [unquote_val p_default p_doc p_typ andb]; rewrite andb_false_r; cbn [bind];
+      rewrite orb_true_r; reflexivity.
+Qed.
